@@ -3,8 +3,12 @@
 
 def _c19_case(c):
     p = c.split(" ")
-    if p[0] in ("M", "T", "U", "L"):
+    if p[0] in ("M", "T", "U", "L", "J", "B", "S"):
         return {"op": p[0], "hex": p[1]}
+    if p[0] == "F":
+        return {"op": "F", "civil": " ".join(p[1:7])}
+    if p[0] == "A":
+        return {"op": "A", "ann": p[1]}
     if p[0] == "K":
         return {"op": "K", "spec": unhex(p[-1]).encode("latin-1").decode("utf-8")}
     return {"raw": c}
@@ -31,9 +35,25 @@ def _vm_ann(t):
     return "[" + "; ".join(out) + "]"
 
 
+def _vm_strs(xs):
+    return "(@nil str)" if not xs else "[" + "; ".join(_vm_str(x) for x in xs) + "]"
+
+
+def _vm_extra(t):
+    u, d, p = t.split("~")
+    urls = _vm_strs([] if u == "_" else u.split("."))
+    data = "(@nil N)" if d == "_" else _vm_str(d)
+    if p == "_":
+        plat = "(@None platform)"
+    else:
+        a, o, v, f, r = p.split(".")
+        plat = "(Some (mkPlatform %s %s %s %s %s))" % (_vm_str(a), _vm_str(o), _vm_str(v), _vm_strs([] if f == "_" else f.split("+")), _vm_str(r))
+    return "(mkExtra %s %s %s)" % (urls, data, plat)
+
+
 def _vm_desc(t):
     _, mt, dg, sz, ann, at, ex = t.split(":")
-    return "(mkDesc %s %s (%s)%%Z %s %s %s)" % (_vm_str(mt), _vm_str(dg), sz, _vm_ann(ann), _vm_str(at), _vm_str(ex))
+    return "(mkDesc %s %s (%s)%%Z %s %s %s)" % (_vm_str(mt), _vm_str(dg), sz, _vm_ann(ann), _vm_str(at), _vm_extra(ex))
 
 
 def _vm_odesc(t):
@@ -79,7 +99,7 @@ def _vm_events(t):
     return "[" + "; ".join(out) + "]"
 
 
-_VM_PRELUDE = """From Oras Require Import Base.Prelude Base.Regex Generated.GC19 Model.Pack.
+_VM_PRELUDE = """From Oras Require Import Base.Prelude Base.Regex Generated.GC19 Model.Pack Model.PackEnc Model.PackSha.
 Fixpoint vm_ltb (x y : str) : bool :=
   match x, y with
   | [], [] => false
@@ -104,16 +124,16 @@ Definition vm_ev (e : event) : vev :=
 Inductive vres :=
 | VErr (e : err)
 | VOk (mt at_ : str) (ann : list kv) (k : mkind) (cfg : option desc) (layers : option (list desc))
-      (subj : option desc) (mat : str) (mann : list kv).
+      (subj : option desc) (mat : str) (mann : list kv) (bytes : str) (size : Z).
 Definition vm_view (p : state * result) : vres * list vev :=
   (match snd p with
    | Err e => VErr e
    | Ok d m0 => let m := san_manifest m0 in
                VOk (d_mt d) (d_at d) (vm_sort (d_ann d)) (m_kind m) (option_map vm_desc (m_config m))
                    (option_map (map vm_desc) (m_layers m)) (option_map vm_desc (m_subject m)) (m_at m)
-                   (vm_sort (m_ann m))
+                   (vm_sort (m_ann m)) (json_manifest m0) (d_sz d)
    end, map vm_ev (s_events (fst p))).
-Definition vm_marshal (_ : manifest) : str := [].
+Definition vm_marshal : manifest -> str := json_manifest.
 Definition vm_h (s : str) : str := if str_eqb s empty_json then empty_json_digest else [63].
 Definition vm_now : str := [60; 78; 79; 87; 62].
 """
@@ -124,6 +144,19 @@ def _vm_goal(case, out):
     o = out.split(" ")
     if p[0] == "M":
         return "valid_media_type %s = %s" % (_vm_str(p[1]), "true" if o[0] == "1" else "false")
+    if p[0] == "F":
+        call = "%s %s %s %s %s %s" % tuple(p[1:7])
+        if o[0] == "INVALID":
+            return "civil_ok %s = false" % call
+        return "format_rfc3339_utc %s = %s" % (call, _vm_str(o[0]))
+    if p[0] == "A" and o[1] != "UNREADABLE":
+        return "(json_ann %s, read_obj (json_ann %s)) = (%s, Some (%s, (@nil N)))" % (_vm_ann(p[1]), _vm_ann(p[1]), _vm_str(o[0]), _vm_ann(o[1]))
+    if p[0] == "S":
+        return "digest_of %s = %s" % (_vm_str(p[1]), _vm_str(o[0]))
+    if p[0] == "J":
+        return "json_string %s = %s" % (_vm_str(p[1]), _vm_str(o[0]))
+    if p[0] == "B":
+        return "base64 %s = %s" % (_vm_str(p[1]), _vm_str(o[0]))
     if p[0] == "L":
         return "rfc3339_ok_prefix %s = %s" % (_vm_str(p[1]), "true" if o[0] == "1" else "false")
     if p[0] == "U":
@@ -134,7 +167,8 @@ def _vm_goal(case, out):
         return None
     fn = {"v10": "FV10", "v11": "FV11", "vbad": "FBadVersion", "rc2": "FRC2", "art": "FArtifact"}[p[1]]
     key = {"0": "KFull", "1": "KDigest", "2": "KNamespace", "3": "KFile"}[p[3]]
-    fa = "(@None nat)" if p[4] == "-" else "(Some %s%%nat)" % p[4]
+    fatok = p[4][:-1] if p[4].endswith("d") else p[4]  # "d": the runner also showed the modelled digest
+    fa = "(@None nat)" if fatok == "-" else "(Some %s%%nat)" % fatok
     call = ("(pack vm_marshal vm_h %s (mkTcfg %s %s) %s (init_state %s) %s (mkOpts %s %s %s %s %s) vm_now)"
             % (fn, "true" if p[2] == "1" else "false", key, fa, _vm_store(p[11]), _vm_str(p[5]), _vm_odesc(p[6]),
                _vm_list(p[7]), _vm_ann(p[8]), _vm_odesc(p[9]), _vm_ann(p[10])))
@@ -144,15 +178,15 @@ def _vm_goal(case, out):
         return "vm_view %s = (VErr %s, %s)" % (call, e, _vm_events(o[3]))
     mt, at, ann = o[1].split(":")
     f = dict(t.split("=", 1) for t in o[2:8])
-    res = "(VOk %s %s %s %s %s %s %s %s %s)" % (_vm_str(mt), _vm_str(at), _vm_ann(ann), {"I": "KImage", "A": "KArtifact"}[f["kind"]],
+    res = "(VOk %s %s %s %s %s %s %s %s %s %s (%s)%%Z)" % (_vm_str(mt), _vm_str(at), _vm_ann(ann), {"I": "KImage", "A": "KArtifact"}[f["kind"]],
                                              _vm_odesc(f["cfg"]), _vm_list(f["layers"]), _vm_odesc(f["subj"]), _vm_str(f["at"]),
-                                             _vm_ann(f["ann"]))
+                                             _vm_ann(f["ann"]), _vm_str(o[13]), o[11])
     return "vm_view %s = (%s, %s)" % (call, res, _vm_events(o[9]))
 
 
 def _c19_vm_sample(d, tier, coq, build):
     import os, subprocess, collections
-    quota = {"K": 250, "M": 120, "T": 120, "U": 60, "L": 60} if tier == "thorough" else {"K": 30, "M": 15, "T": 15, "U": 10, "L": 10}
+    quota = {"K": 250, "M": 120, "T": 120, "U": 60, "L": 60, "J": 60, "B": 40, "F": 40, "S": 12, "A": 30} if tier == "thorough" else {"K": 30, "M": 15, "T": 15, "U": 10, "L": 10, "J": 10, "B": 5, "F": 5, "S": 3, "A": 5}
     outs = {}
     with open(os.path.join(d, "model.txt")) as f:
         for l in f:
@@ -199,25 +233,27 @@ def _c19_vm_sample(d, tier, coq, build):
 
 CONFIG = {
     "properties_file": "Properties/C19.v",
-    "proof_files": ["Base/Prelude.v", "Base/Regex.v", "Base/StrCheck.v", "Proofs/Pack.v", "Proofs/PackTime.v", "Proofs/PackJson.v"],
-    "model_files": ["Generated/GC19.v", "Model/Pack.v"],
+    "proof_files": ["Base/Prelude.v", "Base/Regex.v", "Base/StrCheck.v", "Proofs/Pack.v", "Proofs/PackTime.v", "Proofs/PackJson.v", "Proofs/PackTie.v", "Proofs/PackEnc.v"],
+    "model_files": ["Generated/GC19.v", "Model/Pack.v", "Model/PackEnc.v", "Model/PackSha.v"],
     "extract": "XC19.v",
     "ml_main": "c19_main.ml",
     "harness": "c19",
     "case_to_replay": _c19_case,
     "post_model": _c19_vm_sample,
     "assumptions": [
-        "json.Marshal of the manifest document is a parameter (marshal : manifest -> str); the model's manifest record is the JSON-level document after omitempty; what can be read back is the NAMED premise json_roundtrip of C19_stored_parses: unmarshal (marshal m) = Some (san_manifest m), where utf8_san (executable, compared with encoding/json on every run, case kind U) is json's coercion of invalid UTF-8 to U+FFFD; the harness re-parses the stored bytes with encoding/json and compares the document field by field; strings that are not valid UTF-8 are generated (annotation keys/values, config annotations, artifactType) and judged: known finding non-utf8-lossy; non-UTF-8 inside caller-supplied descriptors (layers/subject/config) and colliding keys after coercion are not generated",
-        "C19_annotation_order_independent assumes marshal_perm: the marshalled bytes do not depend on the order in which a map's entries are listed (encoding/json sorts map keys); the harness checks it on every successful call (annotations re-inserted in reverse order into maps of another capacity; raw stored JSON walked for sorted annotation keys)",
-        "the digest function is a parameter H with the single hypothesis H \"{}\" = sha256:44136f...; collision-freeness of H is an explicit premise of the clauses that conclude equality of stored bytes",
-        "the validation of a caller-supplied created value is modelled as the code is written: time.Parse(time.RFC3339, _) = the lenient recogniser rfc3339_gen false (step-by-step mirror of time.parse for that layout), followed by the explicit strict checks of validateRFC3339, which the translator (kind strictchecks) re-reads from pack.go on every run into Generated/GC19.v; the combination is proved equal to the strict recogniser and to the RFC 3339 section 5.6 grammar with upper-case T/Z and no leap second; the lenient recogniser is compared with the real time.Parse of go1.26.8 on every run (case kind L), the combination with pack.go's own validation observed through PackManifest (case kind T); time.Now().UTC().Format(RFC3339) is the parameter `now` (the harness checks the generated value parses and lies within the call)",
+        "json.Marshal of the manifest documents IS MODELLED: Model/PackEnc.v json_manifest (struct field order and omitempty of ocispec.Manifest / Descriptor / Platform and spec.Artifact -- the tags are re-read by the translator, kind jsontags, from the repository and from image-spec in the module cache --, appendString escaping incl. HTML-safe set, U+2028/9 and coercion of invalid UTF-8, map keys sorted bytewise, int64 decimal, []byte in base64); it is compared byte for byte with the stored manifest on every successful call and with json.Marshal / base64 on random strings (case kinds J, B). The theorems keep marshal as a parameter (they hold for any marshalling); C19_json_marshal_order_independent, C19_annotation_order_independent_json, C19_json_string_roundtrip and C19_json_string_injective_on_valid_utf8 are about the modelled one",
+        "READING BACK a whole manifest (encoding/json Unmarshal of the document) is still the named premise json_roundtrip of C19_stored_parses: unmarshal (marshal m) = Some (san_manifest m); it is a theorem for strings (json_unesc (json_esc s) = Some (utf8_san s)) and for the annotations object (C19_json_annotations_roundtrip: read_obj (json_ann l ++ rest) = Some (san_ann (kv_sort l), rest); compared with encoding/json's Marshal and ordered decoding on random maps, case kind A), not for the whole document; the harness re-parses the stored bytes with encoding/json and compares the document field by field; strings that are not valid UTF-8 are generated for annotation keys/values, config annotations, artifactType and inside caller-supplied descriptors (media type, annotations, urls, artifactType) -- known finding non-utf8-lossy; keys colliding after coercion are not generated",
+        "the digest function is a parameter H with the single hypothesis H \"{}\" = sha256:44136f...; collision-freeness of H is an explicit premise of the clauses that conclude equality of stored bytes; digest.FromBytes (SHA-256) has an executable model (Model/PackSha.v digest_of, compared with go-digest on random strings, case kind S, and with the descriptor digest of a 1/40 sample of the pack calls); it satisfies the hypothesis by computation (C19_sha256_of_empty_json) and the theorems instantiate to the fully executable model (C19_executable_instance_consistent); collision-freeness of SHA-256 is of course not proved",
+        "C19_annotation_order_independent keeps the premise marshal_perm for an arbitrary marshal; for the modelled json.Marshal it is the theorem C19_json_marshal_order_independent (canonical insertion sort by strings.Compare order, keys distinct); the harness re-inserts annotations in reverse order into maps of another capacity on every successful call and walks the raw stored JSON for sorted keys",
+        "the validation of a caller-supplied created value is modelled as the code is written: time.Parse(time.RFC3339, _) = the lenient recogniser rfc3339_gen false (step-by-step mirror of time.parse of go1.26.8 for that layout; compared with the real time.Parse on every run, case kind L), followed by the explicit strict checks of validateRFC3339 re-read by the translator (kind strictchecks); proved equal to the strict recogniser and to the RFC 3339 section 5.6 grammar with upper-case T/Z and no leap second; all indices in range",
+        "time.Now().UTC().Format(time.RFC3339) is modelled on the broken-down UTC time (format_rfc3339_utc; compared with time.Format on every run, case kind F) and proved to pass the validation for every valid civil time before the year 10000 (C19_clock_value_accepted); the conversion of the clock reading to a civil time is the Go runtime's (parameter: any y mo d h mi s with civil_ok); the harness checks the generated value parses, ends in Z (local zone set to +03:30) and lies within the call",
         "Go regexp semantics for the ASCII-only, fully anchored mediaTypeRegexp = Base/Regex.v Lang (proved equal to the derivative matcher)",
-        "the target is modelled as a content store keyed by digest (OCI layout), by media type+digest+size (memory), by digest within the manifest/blob namespace (registry) or as a file store created by file.New with default options (a descriptor with a title annotation -- ConfigAnnotations and ManifestAnnotations are caller-controlled -- is a named file: found by digest once its name is taken, refused with ErrDuplicateName when the name is taken at Push; unnamed content lives in the full-key fallback; NOT modelled / not generated: Store.IgnoreNoName (pushed unnamed content is dropped, so nothing Pack pushed is there), the io.deis.oras.content.unpack annotation, DisableOverwrite/AllowPathTraversalOnWrite), optionally implementing Exists, possibly pre-filled, with at most one injected failing storage operation (the harness makes it return a plain error or one that also is ErrNotFound / ErrDuplicateName / ErrStoreClosed / ErrUnsupported) besides the file store's own refusal of a taken name; every other target keeps what is pushed; stores verify pushed content, which the model omits because every push of Pack is proved content-consistent (C19_store_stays_content_addressed)",
-        "constants of image-spec v1.1.1 (media types, annotation key, DescriptorEmptyJSON) are hand-written in the model and tied by the correspondence run; the oras-go constants and mediaTypeRegexp are regenerated from pack.go / internal/spec/artifact.go",
-        "a config blob whose caller-chosen media type is itself a manifest media type (artifactType = application/vnd.oci.image.manifest.v1+json under v1.0 / Pack) is present in the target but is walked as a manifest by CopyGraph; the copy oracle does not judge such calls (caller inconsistency); the registry target is a minimal in-process distribution endpoint (no manifest validation, referrers API reported as supported)",
+        "the target is modelled as a content store keyed by digest (OCI layout), by media type+digest+size (memory), by digest within the manifest/blob namespace (registry) or as a file store created by file.New with default options (a descriptor with a title annotation is a named file: found by digest once its name is taken, refused with ErrDuplicateName when the name is taken at Push; unnamed content lives in the full-key fallback; NOT modelled / not generated: Store.IgnoreNoName (pushed unnamed content is dropped), the io.deis.oras.content.unpack annotation, DisableOverwrite/AllowPathTraversalOnWrite), optionally implementing Exists, possibly pre-filled, with at most one injected failing storage operation in a call or history (any of five error classes) besides the file store's own refusal of a taken name; every other target keeps what is pushed; stores verify pushed content, which the model omits because every push of Pack is proved content-consistent",
+        "the order of validations, storage operations and the created step inside every function of pack.go (kind callseq, C19_call_order_as_in_source) and every decision of those functions as source text (kind ifconds, C19_decisions_as_in_source) are re-read by the translator and pinned by lemmas; constants of image-spec v1.1.1 (media types, annotation keys, DescriptorEmptyJSON) and defaultManifestMediaTypes are hand-written in the model and tied by the correspondence run; the oras-go constants and mediaTypeRegexp are regenerated from pack.go / internal/spec/artifact.go",
+        "'the result can be copied': proved in the form C19_closed / C19_closed_when_supplied_present (with the caller's descriptors present, the new manifest and all its successors answer Exists); oras.CopyGraph itself is the harness oracle (run when every caller-supplied descriptor is backed; not judged when the caller types the invented config as a manifest media type, a caller inconsistency); the registry target is a minimal in-process distribution endpoint (validates manifests only when everything is backed, referrers API reported as supported)",
     ],
-    "level_text": "Coq theorems for all inputs: mediaTypeRegexp (re-translated from pack.go on every run) = RFC 6838 restricted-name/restricted-name; every run of the four packers over any target (key discipline, Exists or not, any prior content, any single storage fault) has one of five outcomes; PackManifest's rejections (invalid media type, subject under v1.0, missing artifact type, unknown version) leave the state untouched (Pack rejects nothing: stated as a deviation); the created validation accepts exactly the RFC 3339 date-times with upper-case T/Z and no leap second, so a created value that is not RFC 3339 gives an error with no manifest push and only the blob {} added (the pre-fix validation, time.Parse alone, is refuted by a witness); on success the manifest equals the requested document with the documented placeholders and a parsing created annotation, the descriptor is digest/size/media type of the marshalled bytes and is stored, every invented blob is stored with content {}, every successor is caller-supplied or stored, content-addressed stores stay so, a fixed created annotation makes descriptor and manifest independent of target, clock and faults, and (json.Marshal sorting map keys) of the order in which annotations are listed",
-    "level_note": "DEVIATIONS: (1) the rejection clauses hold for PackManifest only -- Pack (deprecated) validates nothing and accepts any string as media type (C19_pack_rejects_nothing_deviation, C19_pack_accepts_invalid_media_type_deviation); for v1.0 with a ConfigDescriptor an invalid artifactType is ignored as documented; (2) known finding non-utf8-lossy: strings that are not valid UTF-8 are coerced by json.Marshal, so 'exactly the requested annotations' and, for Pack, 'can be copied' fail (C19_lossy_json_refuted); the parse clause is C19_stored_parses under the named premise json_roundtrip. ORACLE-ONLY: 'the result can be copied' is the CopyGraph oracle (run when every caller-supplied descriptor is backed; not judged when the caller types the invented config as a manifest); C19_closed proves the membership form (every successor is caller-supplied or stored). json.Marshal and the digest are parameters (H \"{}\" fixed; collision-freeness an explicit premise where bytes are compared); the created validation = lenient time.Parse mirror (compared with time.Parse every run) + checks translated from pack.go, proved = RFC 3339 subset; image-spec constants hand-written; targets: memory, OCI layout, file store (file.New defaults, titled descriptors included), remote.Repository over an in-process distribution endpoint; the storage-failure model is one failing operation of any error class plus the file store's ErrDuplicateName",
+    "level_text": "Coq theorems for all inputs: mediaTypeRegexp (re-translated from pack.go on every run) = RFC 6838 restricted-name/restricted-name; every run of the four packers over any target (key discipline, Exists or not, any prior content, any single storage fault) has one of five outcomes; PackManifest's rejections (invalid media type, subject under v1.0, missing artifact type, unknown version) leave the state untouched (Pack rejects nothing: stated as a deviation); the created validation accepts exactly the RFC 3339 date-times with upper-case T/Z and no leap second, so a created value that is not RFC 3339 gives an error with no manifest push and only the blob {} added (the pre-fix validation, time.Parse alone, is refuted by a witness); on success the manifest equals the requested document with the documented placeholders and a parsing created annotation, the descriptor is digest/size/media type of the marshalled bytes and is stored, every invented blob is stored with content {}, every successor is caller-supplied or stored, content-addressed stores stay so, a fixed created annotation makes descriptor and manifest independent of target, clock and faults and of the order in which annotations are listed (a theorem for the modelled json.Marshal: byte-exact executable model of the encoder, canonical key sorting, string round trip); the storage operations of every call are only Exists/Push of {} for invented descriptors followed by the manifest push; repeating a successful call on a content-addressed target changes nothing (refuted for the file store); over any history of calls stores stay content-addressed and earlier results stay; the clock's created value always passes the validation; rejections return exactly the error the source order gives; on a healthy target the input alone classifies the outcome and a valid input always succeeds; the annotations object reads back as requested (coerced, key-sorted)",
+    "level_note": "DEVIATIONS: (1) the rejection clauses hold for PackManifest only -- Pack (deprecated) validates nothing and accepts any string as media type (C19_pack_rejects_nothing_deviation, C19_pack_accepts_invalid_media_type_deviation); for v1.0 with a ConfigDescriptor an invalid artifactType is ignored as documented; (2) known finding non-utf8-lossy: strings that are not valid UTF-8 are coerced by json.Marshal, so 'exactly the requested annotations' and, for Pack, 'can be copied' fail (C19_lossy_json_refuted); the parse clause is C19_stored_parses under the named premise json_roundtrip. ORACLE-ONLY: oras.CopyGraph itself (run when every caller-supplied descriptor is backed; not judged when the caller types the invented config as a manifest); proved instead: C19_closed and C19_closed_when_supplied_present (manifest and all successors answer Exists when the caller's descriptors are present). json.Marshal is modelled byte-exactly (Model/PackEnc.v) and compared with the stored bytes; reading a whole document back is the named premise json_roundtrip (a theorem for strings); the digest is a parameter of the theorems (H \"{}\" fixed; collision-freeness an explicit premise where bytes are compared) with an executable SHA-256 instance compared with the implementation; the created validation = lenient time.Parse mirror (compared with time.Parse every run) + checks translated from pack.go, proved = RFC 3339 subset; image-spec constants hand-written; targets: memory, OCI layout, file store (file.New defaults, titled descriptors included), remote.Repository over an in-process distribution endpoint; the storage-failure model is one failing operation of any error class plus the file store's ErrDuplicateName",
     "technique": "machine-checked proof in Coq + translator-regenerated definitions + model/implementation correspondence",
-    "explanation": "theorems over all inputs, targets, prior contents and single storage faults about the model of pack.go whose regex/constants are regenerated from the source; differential run of model vs PackManifest/Pack over recording memory/OCI/file targets, exhaustive small-alphabet + boundary + mutated media types and timestamps against validateMediaType and validateRFC3339 (both through PackManifest) and against time.Parse alone; byte strings against json's UTF-8 coercion; enumerated faults of five error classes on all four target kinds; coverage floors; independent oracle: RFC 6838 recogniser, stored bytes re-fetched, re-hashed and re-parsed against the generator's ground truth, invented blobs fetched, CopyGraph into an empty store, repeat calls for determinism, no push on rejection",
+    "explanation": "theorems over all inputs, targets, prior contents and single storage faults about the model of pack.go whose regex/constants are regenerated from the source; differential run of model vs PackManifest/Pack over recording memory/OCI/file targets, exhaustive small-alphabet + boundary + mutated media types and timestamps against validateMediaType and validateRFC3339 (both through PackManifest) and against time.Parse alone; byte strings against json's UTF-8 coercion, json string escaping and base64; stored manifest bytes and descriptor size against the modelled encoder; civil times against time.Format; two-call and chained multi-call histories against the model; enumerated faults of five error classes on all four target kinds; coverage floors; independent oracle: RFC 6838 recogniser, stored bytes re-fetched, re-hashed and re-parsed against the generator's ground truth, invented blobs fetched, CopyGraph into an empty store, repeat calls for determinism, no push on rejection",
 }
